@@ -1,5 +1,6 @@
 import Proofs.ActionPick
 import Proofs.ActionBounds
+import Proofs.ActionGenEq
 
 /-!
 # C14 — every selected action is a legal member of the action space
@@ -340,5 +341,271 @@ example : rescaleVec .tanh [none, some 0] [some 1, some 1] [1/2, 1/2] = [1/2, 1/
 -- multi-agent: noisy action clamped per dimension, second dimension env-defined
 example : maContRow true true [0, 2] [1, 3] [1/2, 0] [1, 0] [none, some (5/2)] = [1, 5/2] := by
   simp [maContRow, clipVec, zipWith3, addVec, override, clip]
+
+open ActionGen
+
+/-! ### the theorems over the definitions translated from the source text (`Gen/ActionGen.lean`)
+
+`harness/py2lean_action.py` translates `get_action` of DQN (with `_get_action`), CQN, RainbowDQN, DDPG, TD3, PPO, the
+per-agent loop body of IPPO / MADDPG / MATD3 and `DeterministicActor.forward` / `rescale_action`,
+`StochasticActor.scale_action` from the source text of the tree under test; `Proofs/ActionGenEq.lean` proves the
+generated definitions equal to the model's.  Masks are the 0/1 rows the library is given (`ofBools m`);
+`*_draws_ok` is the generated statement of what torch / numpy promise about the draws (`0 ≤ x < 1`, the `randint`
+range, row lengths — the bounds are those written in the source). -/
+
+theorem argmaxFirst_lt (l : List (Option Rat)) (hne : l ≠ []) : argmaxFirst l < l.length :=
+  (argmaxFirst_spec l hne).lt_len
+
+theorem pick_lt (q r : List Rat) (m : List Bool) (A : Nat) (hA : 0 < A) (hq : q.length = A) (hr : r.length = A)
+    (hm : m.length = A) : maPick q m < A ∧ explorePick r m < A ∧ plainPick q < A := by
+  have h1 : (maskFill q m).length = A := by simp [maskFill, List.length_zipWith, hq, hm]
+  have h2 : (randScores r m).length = A := by simp [randScores, List.length_zipWith, hr, hm]
+  have h3 : (q.map some).length = A := by simp [hq]
+  have ne : ∀ (l : List (Option Rat)), l.length = A → l ≠ [] := by
+    intro l hl e; rw [e] at hl; simp at hl; omega
+  refine ⟨?_, ?_, ?_⟩
+  · have := argmaxFirst_lt _ (ne _ h1); rwa [h1] at this
+  · have := argmaxFirst_lt _ (ne _ h2); rwa [h2] at this
+  · have := argmaxFirst_lt _ (ne _ h3); rwa [h3] at this
+
+/-- the index `get_action` returns is a member of `Discrete(action_dim)` — DQN, CQN, RainbowDQN; with or without a
+    mask (any mask of the right length, even all-zero), greedy or exploring, for every draw the library can make -/
+theorem C14_source_translation_index_in_range (q r : List Rat) (m : Option (List Bool)) (eps u : Rat) (k A : Nat)
+    (hA : 0 < A) (hq : q.length = A) (hm : ∀ m', m = some m' → m'.length = A) :
+    (DQN.get_action_draws_ok (self_actor_out := q) (rand_like := r) (uniform_ := u) →
+      DQN.get_action (epsilon := eps) (action_mask := m.map ofBools) (self_action_dim := A)
+        (self_actor_out := q) (rand_like := r) (uniform_ := u) < A) ∧
+    (CQN.get_action_draws_ok (self_action_dim := A) (np_random_randint := k) (np_random_uniform := r)
+        (random_random := u) →
+      CQN.get_action (epsilon := eps) (action_mask := m.map ofBools) (self_actor_out := q)
+        (np_random_randint := k) (np_random_uniform := r) (random_random := u) < A) ∧
+    Rainbow.get_action (action_mask := m.map ofBools) (self_actor_out := q) < A := by
+  refine ⟨?_, ?_, ?_⟩
+  · intro hok
+    obtain ⟨-, hr, -⟩ := hok
+    rw [hq] at hr
+    cases m with
+    | none =>
+      obtain ⟨h1, h2, -⟩ := pick_lt q r (List.replicate A true) A hA hq hr (by simp)
+      simp only [Option.map_none, gen_dqn_get_action_none_eq, dqnRow]
+      split <;> assumption
+    | some m' =>
+      obtain ⟨h1, h2, -⟩ := pick_lt q r m' A hA hq hr (hm m' rfl)
+      simp only [Option.map_some, gen_dqn_get_action_some_eq, dqnRow]
+      split <;> assumption
+  · intro hok
+    obtain ⟨-, ⟨-, hk⟩, -, hr⟩ := hok
+    cases m with
+    | none =>
+      obtain ⟨-, -, h3⟩ := pick_lt q r (List.replicate A true) A hA hq hr (by simp)
+      simp only [Option.map_none, gen_cqn_get_action_none_eq, cqnRowNoMask]
+      split <;> assumption
+    | some m' =>
+      obtain ⟨h1, h2, -⟩ := pick_lt q r m' A hA hq hr (hm m' rfl)
+      simp only [Option.map_some, gen_cqn_get_action_some_eq, cqnRow]
+      split <;> assumption
+  · cases m with
+    | none =>
+      obtain ⟨-, -, h3⟩ := pick_lt q q (List.replicate A true) A hA hq hq (by simp)
+      simpa only [Option.map_none, gen_rainbow_get_action_none_eq] using h3
+    | some m' =>
+      obtain ⟨h1, -, -⟩ := pick_lt q q m' A hA hq hq (hm m' rfl)
+      simpa only [Option.map_some, gen_rainbow_get_action_some_eq] using h1
+
+/-- a masked action is never the greedy choice of the translated code as long as one action is allowed: DQN when
+    the row uses the policy (`ε < u`), CQN when it does not explore, RainbowDQN always -/
+theorem C14_source_translation_masked_never_chosen_greedy (q r : List Rat) (m : List Bool) (eps u : Rat) (k A : Nat)
+    (hlen : q.length = m.length) (a : Nat) (ha : m[a]? = some true) (j : Nat) (hj : m[j]? = some false) :
+    (eps < u → DQN.get_action (epsilon := eps) (action_mask := some (ofBools m)) (self_action_dim := A)
+        (self_actor_out := q) (rand_like := r) (uniform_ := u) ≠ j) ∧
+    (¬ u < eps → CQN.get_action (epsilon := eps) (action_mask := some (ofBools m)) (self_actor_out := q)
+        (np_random_randint := k) (np_random_uniform := r) (random_random := u) ≠ j) ∧
+    Rainbow.get_action (action_mask := some (ofBools m)) (self_actor_out := q) ≠ j := by
+  obtain ⟨h0, h1, h2⟩ := C14_masked_never_chosen_greedy q r m eps u hlen a ha j hj
+  rw [gen_dqn_get_action_some_eq, gen_cqn_get_action_some_eq, gen_rainbow_get_action_some_eq]
+  exact ⟨h1, h2, h0⟩
+
+/-- the exploring branch of the translated code (`argmax(rand * mask)`, DQN and CQN) returns an allowed action for
+    every draw the library can make (`*_draws_ok`: entries in `[0, 1)` as written in the source) in which some allowed
+    action's draw is not exactly 0 -/
+theorem C14_source_translation_explore_legal (q r : List Rat) (m : List Bool) (eps u : Rat) (k A : Nat)
+    (hq : q.length = m.length) (hA : m.length = A) (a : Nat) (ra : Rat) (ha : m[a]? = some true)
+    (hra : r[a]? = some ra) (hne : ra ≠ 0) :
+    (DQN.get_action_draws_ok (self_actor_out := q) (rand_like := r) (uniform_ := u) → ¬ eps < u →
+      m[DQN.get_action (epsilon := eps) (action_mask := some (ofBools m)) (self_action_dim := A)
+        (self_actor_out := q) (rand_like := r) (uniform_ := u)]? = some true) ∧
+    (CQN.get_action_draws_ok (self_action_dim := A) (np_random_randint := k) (np_random_uniform := r)
+        (random_random := u) → u < eps →
+      m[CQN.get_action (epsilon := eps) (action_mask := some (ofBools m)) (self_actor_out := q)
+        (np_random_randint := k) (np_random_uniform := r) (random_random := u)]? = some true) := by
+  have hmem : ra ∈ r := List.mem_of_getElem? hra
+  constructor
+  · intro hok hu
+    obtain ⟨hr, hl, -⟩ := hok
+    have hpos : 0 < ra := lt_of_le_of_ne (hr ra hmem).1 (Ne.symm hne)
+    rw [gen_dqn_get_action_some_eq]
+    exact (C14_explore_legal_partial q r m eps u (by rw [hl, hq]) a ra ha hra hpos).2.1 hu
+  · intro hok hu
+    obtain ⟨-, -, hr, hl⟩ := hok
+    have hpos : 0 < ra := lt_of_le_of_ne (hr ra hmem).1 (Ne.symm hne)
+    rw [gen_cqn_get_action_some_eq]
+    exact (C14_explore_legal_partial q r m eps u (by rw [hl, hA]) a ra ha hra hpos).2.2 hu
+
+/-- exploration switched off (`ε = 0`): the translated DQN (for every draw `u ≠ 0`), CQN (for every draw the library
+    can make) and RainbowDQN return an allowed action whose value is ≥ that of every allowed action -/
+theorem C14_source_translation_eps0_best_allowed (q r : List Rat) (m : List Bool) (u : Rat) (k A : Nat)
+    (hlen : q.length = m.length) (a : Nat) (ha : m[a]? = some true) :
+    let best (c : Nat) : Prop :=
+      ∃ v, q[c]? = some v ∧ m[c]? = some true ∧ ∀ (j : Nat) (x : Rat), m[j]? = some true → q[j]? = some x → x ≤ v
+    (0 < u → best (DQN.get_action (epsilon := 0) (action_mask := some (ofBools m)) (self_action_dim := A)
+        (self_actor_out := q) (rand_like := r) (uniform_ := u))) ∧
+    (CQN.get_action_draws_ok (self_action_dim := A) (np_random_randint := k) (np_random_uniform := r)
+        (random_random := u) →
+      best (CQN.get_action (epsilon := 0) (action_mask := some (ofBools m)) (self_actor_out := q)
+        (np_random_randint := k) (np_random_uniform := r) (random_random := u))) ∧
+    best (Rainbow.get_action (action_mask := some (ofBools m)) (self_actor_out := q)) := by
+  intro best
+  obtain ⟨hb, hc, -⟩ := C14_greedy_is_best_allowed_masked_array q r m 0 u hlen a ha
+  refine ⟨?_, ?_, ?_⟩
+  · intro hu
+    obtain ⟨v, h1, h2, h3, -⟩ := C14_greedy_is_best_allowed q r m 0 u hlen a ha hu
+    rw [gen_dqn_get_action_some_eq]
+    exact ⟨v, h1, h2, h3⟩
+  · intro hok
+    obtain ⟨⟨h0, -⟩, -⟩ := hok
+    rw [gen_cqn_get_action_some_eq, hc (not_lt.mpr h0)]
+    exact hb
+  · rw [gen_rainbow_get_action_some_eq]
+    exact hb
+
+/-- greedy choice of the translated DQN row (`ε < u`): best allowed, ties to the first index -/
+theorem C14_source_translation_greedy_is_best_allowed (q r : List Rat) (m : List Bool) (eps u : Rat) (A : Nat)
+    (hlen : q.length = m.length) (a : Nat) (ha : m[a]? = some true) (hu : eps < u) :
+    let c := DQN.get_action (epsilon := eps) (action_mask := some (ofBools m)) (self_action_dim := A)
+        (self_actor_out := q) (rand_like := r) (uniform_ := u)
+    ∃ v, q[c]? = some v ∧ m[c]? = some true ∧
+      (∀ (j : Nat) (x : Rat), m[j]? = some true → q[j]? = some x → x ≤ v) ∧
+      (∀ (j : Nat) (x : Rat), j < c → m[j]? = some true → q[j]? = some x → x < v) := by
+  intro c
+  have e : c = dqnRow q r m eps u := gen_dqn_get_action_some_eq q r m eps u A
+  rw [e]
+  exact C14_greedy_is_best_allowed q r m eps u hlen a ha hu
+
+/-- DDPG / TD3 `get_action` as translated: every component of the returned action lies inside that component's
+    bounds, whatever the actor output and the noise, training or not -/
+theorem C14_source_translation_clip_in_bounds (tr : Bool) (los his a noise : List Rat) (i : Nat) (lo hi x nz : Rat)
+    (hlo : los[i]? = some lo) (hhi : his[i]? = some hi) (hx : a[i]? = some x)
+    (hn : noise[i]? = some nz) (hle : lo ≤ hi) :
+    (∃ y, (DDPG.get_action (training := tr) (self_action_space_high := his) (self_action_space_low := los)
+        (self_actor_out := a) (self_action_noise := noise))[i]? = some y ∧ lo ≤ y ∧ y ≤ hi) ∧
+    (∃ y, (TD3.get_action (training := tr) (self_action_space_high := his) (self_action_space_low := los)
+        (self_actor_out := a) (self_action_noise := noise))[i]? = some y ∧ lo ≤ y ∧ y ≤ hi) := by
+  rw [gen_ddpg_get_action_eq, gen_td3_get_action_eq]
+  exact ⟨C14_clip_in_bounds tr los his a noise i lo hi x nz hlo hhi hx hn hle,
+    C14_clip_in_bounds tr los his a noise i lo hi x nz hlo hhi hx hn hle⟩
+
+/-- `DeterministicActor.forward` as translated (finite bounds, Box, `clip_actions`): a head output inside the range
+    of its bounded activation is rescaled inside `[low, high]`, per component; and the whole translated agent
+    (`forward` then DDPG / TD3 `get_action`) returns an action inside the bounds -/
+theorem C14_source_translation_rescale_in_bounds (act : OutAct) (pmin pmax : Rat)
+    (hact : prescaled act = some (pmin, pmax)) (tr : Bool) (los his h noise : List Rat) (fl fh : List Bool)
+    (hfl : fl.any (fun b => b) = false) (hfh : fh.any (fun b => b) = false)
+    (hl : los.length = h.length) (hh : his.length = h.length)
+    (i : Nat) (lo hi x nz : Rat) (hlo : los[i]? = some lo) (hhi : his[i]? = some hi) (hx : h[i]? = some x)
+    (hn : noise[i]? = some nz) (hle : lo ≤ hi) (h1 : pmin ≤ x) (h2 : x ≤ pmax) :
+    let out := Actor.forward (self_action_high := his) (self_action_high_isinf := fh) (self_action_low := los)
+      (self_action_low_isinf := fl) (self_action_space_is_Box := true) (self_clip_actions := true)
+      (self_head_net_out := h) (self_output_activation := actName act)
+    (∃ y, out[i]? = some y ∧ lo ≤ y ∧ y ≤ hi) ∧
+    (∃ y, (DDPG.get_action (training := tr) (self_action_space_high := his) (self_action_space_low := los)
+        (self_actor_out := out) (self_action_noise := noise))[i]? = some y ∧ lo ≤ y ∧ y ≤ hi) := by
+  intro out
+  have e : out = actorOut act los his h := gen_actor_forward_eq act los his h fl fh hfl hfh hl hh
+  have hb : ∃ y, out[i]? = some y ∧ lo ≤ y ∧ y ≤ hi := by
+    rw [e]
+    exact C14_rescale_in_bounds act pmin pmax hact (los.map some) (his.map some) h (by simp) (by simp) i lo hi x
+      (by simp [hlo]) (by simp [hhi]) hx hle h1 h2
+  refine ⟨hb, ?_⟩
+  obtain ⟨y0, hy0, -, -⟩ := hb
+  exact (C14_source_translation_clip_in_bounds tr los his out noise i lo hi y0 nz hlo hhi hy0 hn hle).1
+
+/-- PPO `get_action` and the IPPO per-agent loop body as translated, evaluation mode on a Box: clipping lands inside
+    the bounds; with a squashing actor the rescaled squashed sample (in [-1, 1]) lands inside the bounds -/
+theorem C14_source_translation_pg_eval_in_bounds (sq : Bool) (los his xs : List Rat) (i : Nat) (lo hi x : Rat)
+    (hlo : los[i]? = some lo) (hhi : his[i]? = some hi) (hx : xs[i]? = some x) (hle : lo ≤ hi)
+    (hsq : sq = true → -1 ≤ x ∧ x ≤ 1) :
+    (∃ y, (PPO.get_action (self_action_space_high := his) (self_action_space_is_Box := true)
+        (self_action_space_low := los) (self_actor_forward_head_out_0 := xs) (self_actor_squash_output := sq)
+        (self_training := false))[i]? = some y ∧ lo ≤ y ∧ y ≤ hi) ∧
+    (∃ y, (IPPO.agent_action (self_action_space_i_high := his) (self_action_space_i_is_Box := true)
+        (self_action_space_i_low := los) (self_actors_i_action_high := his) (self_actors_i_action_low := los)
+        (self_actors_i_out_0 := xs) (self_actors_i_squash_output := sq) (self_training := false))[i]? = some y ∧
+        lo ≤ y ∧ y ≤ hi) ∧
+    (sq = true → ∃ y, (StochActor.scale_action (action := xs) (self_action_high := his)
+        (self_action_low := los))[i]? = some y ∧ lo ≤ y ∧ y ≤ hi) := by
+  rw [gen_ppo_get_action_eval_eq, gen_ippo_agent_action_eval_eq, gen_scale_action_eq]
+  refine ⟨C14_pg_eval_in_bounds sq los his xs i lo hi x hlo hhi hx hle hsq,
+    C14_pg_eval_in_bounds sq los his xs i lo hi x hlo hhi hx hle hsq, ?_⟩
+  intro h
+  subst h
+  simpa [pgEvalBox] using C14_pg_eval_in_bounds true los his xs i lo hi x hlo hhi hx hle hsq
+
+/-- MADDPG / MATD3 per-agent loop body as translated (not compiled), Box: after the env-defined override the action
+    lies inside the agent's per-dimension bounds in training and evaluation mode; discrete: the masked argmax of the
+    translated scores is the env-defined action where defined, otherwise an allowed action -/
+theorem C14_source_translation_ma_in_bounds (tr box : Bool) (los his a noise ah al : List Rat) (fh fl : List Bool)
+    (name : Option String) (env : List (Option Rat)) (i : Nat) (lo hi x nz : Rat) (e : Option Rat)
+    (hlo : los[i]? = some lo) (hhi : his[i]? = some hi) (hx : a[i]? = some x)
+    (hn : noise[i]? = some nz) (he : env[i]? = some e) (hle : lo ≤ hi)
+    (henv : ∀ v, e = some v → lo ≤ v ∧ v ≤ hi) :
+    (∃ y, (override (MADDPG.agent_action (training := tr) (self_action_spaces_i_is_Box := box)
+        (self_actors_i_action_high := ah) (self_actors_i_action_high_isinf := fh) (self_actors_i_action_low := al)
+        (self_actors_i_action_low_isinf := fl) (self_actors_i_out := a) (self_actors_i_output_activation := name)
+        (self_discrete_actions := false) (self_max_action_i := his) (self_min_action_i := los)
+        (self_torch_compiler_is_None := true) (self_action_noise := noise)) env)[i]? = some y ∧ lo ≤ y ∧ y ≤ hi) ∧
+    (∃ y, (override (MATD3.agent_action (training := tr) (self_action_spaces_i_is_Box := box)
+        (self_actors_i_action_high := ah) (self_actors_i_action_high_isinf := fh) (self_actors_i_action_low := al)
+        (self_actors_i_action_low_isinf := fl) (self_actors_i_out := a) (self_actors_i_output_activation := name)
+        (self_discrete_actions := false) (self_max_action_i := his) (self_min_action_i := los)
+        (self_torch_compiler_is_None := true) (self_action_noise := noise)) env)[i]? = some y ∧ lo ≤ y ∧ y ≤ hi) := by
+  rw [gen_maddpg_agent_action_box_eq, gen_matd3_agent_action_box_eq, ← maContRow_eq_override]
+  obtain ⟨y, hy, h1, h2, -⟩ := C14_ma_in_bounds tr los his a noise env i lo hi x nz e hlo hhi hx hn he hle henv
+  exact ⟨⟨y, hy, h1, h2⟩, ⟨y, hy, h1, h2⟩⟩
+
+theorem C14_source_translation_ma_discrete_legal (tr box : Bool) (los his p noise ah al : List Rat) (fh fl : List Bool)
+    (name : Option String) (m : List Bool) (env : Option Nat)
+    (hlen : p.length = m.length) (hnl : noise.length = p.length) (a : Nat) (ha : m[a]? = some true) :
+    let scores := MADDPG.agent_action (training := tr) (self_action_spaces_i_is_Box := box)
+        (self_actors_i_action_high := ah) (self_actors_i_action_high_isinf := fh) (self_actors_i_action_low := al)
+        (self_actors_i_action_low_isinf := fl) (self_actors_i_out := p) (self_actors_i_output_activation := name)
+        (self_discrete_actions := true) (self_max_action_i := his) (self_min_action_i := los)
+        (self_torch_compiler_is_None := true) (self_action_noise := noise)
+    let scores' := MATD3.agent_action (training := tr) (self_action_spaces_i_is_Box := box)
+        (self_actors_i_action_high := ah) (self_actors_i_action_high_isinf := fh) (self_actors_i_action_low := al)
+        (self_actors_i_action_low_isinf := fl) (self_actors_i_out := p) (self_actors_i_output_activation := name)
+        (self_discrete_actions := true) (self_max_action_i := his) (self_min_action_i := los)
+        (self_torch_compiler_is_None := true) (self_action_noise := noise)
+    scores' = scores ∧
+    (∀ v, env = some v → env.getD (maPick scores m) = v) ∧
+    (env = none → m[env.getD (maPick scores m)]? = some true) := by
+  intro scores scores'
+  have e : scores = (if tr then (addVec p noise).map (clip 0 1) else p) :=
+    gen_maddpg_agent_action_discrete_eq tr box los his p noise ah al fh fl name
+  have e' : scores' = (if tr then (addVec p noise).map (clip 0 1) else p) :=
+    gen_matd3_agent_action_discrete_eq tr box los his p noise ah al fh fl name
+  have hm : env.getD (maPick scores m) = maDiscRow tr p noise m env := by
+    rw [e]; cases tr <;> simp [maDiscRow]
+  refine ⟨by rw [e, e'], ?_, ?_⟩
+  · intro v hv; rw [hm]; exact (C14_ma_discrete_legal tr p noise m env hlen hnl a ha).1 v hv
+  · intro hv; rw [hm]; exact (C14_ma_discrete_legal tr p noise m env hlen hnl a ha).2 hv
+
+/-! non-vacuity of the hypotheses over the generated definitions -/
+example : DQN.get_action_draws_ok (self_actor_out := [9, 9, 9]) (rand_like := [1/4, 3/4, 1/2]) (uniform_ := 1/2) ∧
+    ([true, false, true] : List Bool)[0]? = some true ∧ ([1/4, 3/4, 1/2] : List Rat)[0]? = some (1/4) := by
+  refine ⟨?_, rfl, rfl⟩
+  simp [DQN.get_action_draws_ok]; norm_num
+example : CQN.get_action_draws_ok (self_action_dim := 3) (np_random_randint := 2) (np_random_uniform := [1/4, 3/4, 1/2])
+    (random_random := 0) := by
+  simp [CQN.get_action_draws_ok]; norm_num
 
 end Action
